@@ -710,8 +710,20 @@ def _without_renames(diffs, old):
             occ[n.id] = occ.get(n.id, 0) + 1
         elif isinstance(n, ast.arg):
             occ[n.arg] = occ.get(n.arg, 0) + 1
+    # only a local can be renamed: a name the confirmed function binds (assignment, loop or with target, handler name,
+    # parameter).  A global it merely reads - an exception class, a helper, a constant - replaced by another is an edit.
+    bound = set()
+    for n in ast.walk(old):
+        if isinstance(n, ast.Name) and isinstance(n.ctx, (ast.Store, ast.Del)):
+            bound.add(n.id)
+        elif isinstance(n, ast.arg):
+            bound.add(n.arg)
+        elif isinstance(n, ast.ExceptHandler) and n.name:
+            bound.add(n.name)
     renamed = set()
     for a, bs in pairs.items():
+        if a not in bound:
+            continue
         # a name the confirmed function does not have at all is a new local (a complete renaming, or a second name for a
         # re-assigned value); a defect of the "wrong variable" kind uses a name that is already there
         if len(bs) == 1 and next(iter(bs)) not in occ:
